@@ -301,6 +301,23 @@ func (ba *flatBlobAccess) GetFromComposite(ctx context.Context, parentDigest, ch
 		}
 		ba.refreshesBlobsDurationGetFromComposite.Observe(time.Since(refreshStart).Seconds())
 		ba.refreshesBlobsGetFromComposite.Observe(1)
+	} else {
+		// The lock was dropped while slicing. Block indices are
+		// relative to the start of the block list, so the location
+		// obtained previously is no longer valid if blocks were
+		// rotated in the meantime. Look up the parent once more.
+		parentLocation, err = ba.keyLocationMap.Get(parentKey)
+		if err != nil {
+			ba.lock.Unlock()
+			if status.Code(err) == codes.NotFound {
+				// The parent disappeared in the meantime. The
+				// slices can no longer be recorded, but the
+				// child that was extracted is still valid.
+				return bChild
+			}
+			bChild.Discard()
+			return buffer.NewBufferFromError(err)
+		}
 	}
 
 	// Create key-location map entries for each of the slices. This
